@@ -2,7 +2,8 @@
 """Kernel cross-check of the extraction (thorough tier): a sample of the cases a check has just run is turned into
 Coq terms and evaluated by the kernel's vm_compute on the model's own definitions; the result must equal what the
 extracted OCaml model printed.   usage: kcheck.py <Cxx> [sample]   -> prints 'kcheck Cxx: N cases, M mismatches'
-Supported: C12 (round-robin / weighted round-robin runs), C16 (shutdown schedules)."""
+Supported: C12 (round-robin / weighted round-robin runs), C16 (shutdown schedules), C19 (what the HTTP front ends build from
+header sets), C18 (breaker traces), C10 (fail-mode scripts)."""
 import os, random, re, subprocess, sys
 ROOT = os.path.dirname(os.path.dirname(os.path.abspath(__file__)))
 pid = sys.argv[1]
@@ -18,6 +19,7 @@ def coq_list(xs):
     return "[" + "; ".join(xs) + "]"
 
 out = []
+rows = []
 if pid == "C12":
     out.append("From Coq Require Import List ZArith Arith Bool.\nFrom RPCX Require Import Select.RoundRobin Select.SWRR.\nImport ListNotations.\nClose Scope Z_scope.\nOpen Scope nat_scope.\n")
     out.append("Definition onat_eqb (a b : option nat) : bool := match a, b with Some x, Some y => Nat.eqb x y | None, None => true | _, _ => false end.")
@@ -91,13 +93,135 @@ elif pid == "C16":
     out.append("Definition cases : list (list (nat * rinfo) * list event * Z * nat) := %s." % coq_list(rows))
     out.append("Definition bad := filter (fun c => match c with (rs, evs, n, cl) => let s := run (mkinfo rs) init evs in negb (Z.eqb (count s) n && Nat.eqb (closes s) cl) end) cases.")
     out.append("Definition KCHECK := Eval vm_compute in (length cases, length bad).\nPrint KCHECK.")
+elif pid == "C19":
+    ids = [i for i in sorted(cases) if cases[i].split(" ")[0] in ("conv", "gw", "jr")]
+    random.Random(1).shuffle(ids)
+    ids = ids[:sample]
+    def B(h):
+        if h in ("-", ""): return "[]"
+        return coq_list(str(int(h[i:i+2], 16)) for i in range(0, len(h), 2))
+    def expected(s):
+        if s in ("err", "malformed"): return "None"
+        m = re.match(r"seq=(\d+) hb=(\d) ow=(\d) ser=(\d+) comp=(\d+) meta=(\S*) path=(\S+) meth=(\S+) body=(\S+)$", s)
+        if not m: return None
+        meta = []
+        if m.group(6):
+            for e in m.group(6).split(","):
+                k, v = e.split(":")
+                meta.append("(%s, %s)" % (B(k), B(v)))
+        bl = lambda x: "true" if x == "1" else "false"
+        return "Some (mkGReq %s %s %s %s %s %s %s %s %s)" % (m.group(1), bl(m.group(2)), bl(m.group(3)), m.group(4), m.group(5),
+                coq_list(meta), B(m.group(7)), B(m.group(8)), B(m.group(9)))
+    rows = []
+    for i in ids:
+        f = [t for t in cases[i].split(" ") if not t.startswith("+")]
+        exp = expected(model.get(i, ""))
+        if exp is None: continue
+        if f[0] in ("conv", "gw"):
+            h = "(mkGHdr %s)" % " ".join(B(x) for x in f[1:10])
+            call = "http_to_req %s %s" % (h, B(f[10])) if f[0] == "conv" else "gateway_front %s %s %s" % (h, B(f[11]), B(f[10]))
+        else:
+            call = "jsonrpc_front %s %s %s %s %s" % (B(f[1]), B(f[2]), B(f[3]), B(f[4]), "true" if f[5] == "1" else "false")
+        rows.append("(%s, %s)" % (call, exp))
+    src = """From Coq Require Import List NArith ZArith Bool.
+    From RPCX Require Import Wire.Bytes Server.Gateway.
+    Import ListNotations. Open Scope N_scope.
+    Definition meta_sub (a b : list (bytes * bytes)) : bool :=
+      forallb (fun kv => match mlookup (fst kv) b with Some v => beq v (snd kv) | None => false end) a.
+    Definition greq_eqb (a b : greq) : bool :=
+      (g_seq a =? g_seq b) && Bool.eqb (g_hb a) (g_hb b) && Bool.eqb (g_oneway a) (g_oneway b) && (g_ser a =? g_ser b) &&
+      (g_comp a =? g_comp b) && meta_sub (g_meta a) (g_meta b) && meta_sub (g_meta b) (g_meta a) &&
+      beq (g_path a) (g_path b) && beq (g_meth a) (g_meth b) && beq (g_payload a) (g_payload b).
+    Definition oeqb (a b : option greq) : bool :=
+      match a, b with Some x, Some y => greq_eqb x y | None, None => true | _, _ => false end.
+    Definition cases : list (option greq * option greq) := %s.
+    Definition bad := filter (fun c => negb (oeqb (fst c) (snd c))) cases.
+    Definition KCHECK := Eval vm_compute in (length cases, length bad).
+    Print KCHECK.
+    """ % coq_list(rows)
+    out.append(src)
+elif pid == "C18":
+    OUT = {"r1": "OReady true", "r0": "OReady false", "inv-ok": "OInvoked true", "inv-fail": "OInvoked false", "refused": "ORefused", "-": "ONone"}
+    for i in [x for x in sorted(cases) if cases[x].startswith("br ")][:sample]:
+        f = cases[i].split(" ")
+        evs = []
+        for e in f[3:]:
+            k, rest = e.split("@")
+            if k == "C":
+                t, ok, t2 = rest.split(":")
+                evs.append("ECall %s %s %s" % (t, "true" if ok == "ok" else "false", t2))
+            else:
+                evs.append("%s %s" % ({"R": "EReady", "F": "EFail", "S": "ESuccess"}[k], rest))
+        outs = [OUT[o] for o in model[i].split(" ")] if model[i] else []
+        rows.append("(mkCfg %s %s, %s, %s)" % (f[1], f[2], coq_list(evs), coq_list(outs)))
+    src = """From Coq Require Import List ZArith Bool.
+From RPCX Require Import XClient.Breaker.
+Import ListNotations. Open Scope Z_scope.
+Definition bout_eqb (a b : bout) : bool := match a, b with
+  | OReady x, OReady y | OInvoked x, OInvoked y => Bool.eqb x y | ORefused, ORefused | ONone, ONone => true | _, _ => false end.
+Fixpoint outs_eqb (a b : list bout) : bool := match a, b with [], [] => true | x :: a', y :: b' => bout_eqb x y && outs_eqb a' b' | _, _ => false end.
+Definition cases : list (bcfg * list bevent * list bout) := %s.
+Definition bad := filter (fun c => match c with (cfg, tr, outs) => negb (outs_eqb (snd (b_run cfg b_init tr)) outs) end) cases.
+Definition KCHECK := Eval vm_compute in (length cases, length bad).
+Print KCHECK.
+""" % coq_list(rows)
+    out.append(src)
+elif pid == "C10":
+    O = {"svc": "OSvc", "svc0": "OSvc", "lost": "OLost", "ctx": "OCtx", "dl": "ODeadline"}
+    E = {"svc": "XSvc", "lost": "XLost", "ctx": "XCtx", "dl": "XDeadline", "dial": "XDial", "noserver": "XNoServer", "unavailable": "XUnavailable"}
+    def outc(o): return "OOk %s" % o[2:] if o.startswith("ok") else O[o]
+    for i in ids:
+        m, r, rr, srvs = cases[i].split(" ")
+        ss = []
+        if srvs != "-":
+            for t in srvs.split(";"):
+                d, c = t.split("/")
+                dials = [] if d == "-" else ["true" if ch == "1" else "false" for ch in d]
+                calls = [] if c == "-" else [outc(o) for o in c.split(",")]
+                ss.append("mkSrv false %s %s" % (coq_list(dials), coq_list(calls)))
+        en = "mkEnv %s %s []" % (coq_list(ss), rr)
+        if m.startswith("backup"):
+            call = "xcall_backup (mkB %s %s) (%s)" % ("true" if m[6] == "1" else "false", "true" if m[7] == "1" else "false", en)
+        else:
+            call = "xcall %s %s (%s)" % ({"fast": "Failfast", "try": "Failtry", "over": "Failover"}[m], r, en)
+        mm = re.match(r"\[(.*)\] (\S+)$", model[i])
+        log = []
+        if mm.group(1):
+            for a in mm.group(1).split(","):
+                s, o = a.split(":")
+                log.append("(%s, %s)" % (s[1:], outc(o)))
+        res = mm.group(2)
+        if res.startswith("ok:"):
+            exp = "(None, Some %s)" % res[3:] if res[3:] != "?" else "(None, None)"
+        else:
+            exp = "(Some %s, None)" % E[res]
+        rows.append("(%s, %s, %s)" % (call, coq_list(log), exp))
+    src = """From Coq Require Import List Arith Bool.
+From RPCX Require Import XClient.FailMode XClient.Backup.
+Import ListNotations.
+Definition o_eqb (a b : outcome) : bool := match a, b with
+  | OOk x, OOk y => Nat.eqb x y | OSvc, OSvc | OLost, OLost | OCtx, OCtx | ODeadline, ODeadline => true | _, _ => false end.
+Definition x_eqb (a b : errk) : bool := match a, b with
+  | XSvc, XSvc | XLost, XLost | XCtx, XCtx | XDeadline, XDeadline | XDial, XDial | XNoServer, XNoServer | XUnavailable, XUnavailable => true | _, _ => false end.
+Fixpoint log_eqb (a b : list (nat * outcome)) : bool := match a, b with [], [] => true
+  | (s, o) :: a', (s', o') :: b' => Nat.eqb s s' && o_eqb o o' && log_eqb a' b' | _, _ => false end.
+Definition res_ok (r : xres) (log : list (nat * outcome)) (e : option errk * option nat) : bool :=
+  log_eqb (attempts (x_env r)) log &&
+  match x_err r, fst e with Some a, Some b => x_eqb a b | None, None =>
+    (match x_reply r, snd e with Some a, Some b => Nat.eqb a b | None, None => true | _, _ => false end) | _, _ => false end.
+Definition cases : list (xres * list (nat * outcome) * (option errk * option nat)) := %s.
+Definition bad := filter (fun c => match c with (r, log, e) => negb (res_ok r log e) end) cases.
+Definition KCHECK := Eval vm_compute in (length cases, length bad).
+Print KCHECK.
+""" % coq_list(rows)
+    out.append(src)
 else:
     print("kcheck %s: not supported" % pid)
     sys.exit(0)
 vf = os.path.join(wdir, "KCheck.v")
 open(vf, "w").write("\n".join(out) + "\n")
 p = subprocess.run("cd %s && timeout 1200 coqc -Q %s/coq RPCX KCheck.v" % (wdir, ROOT), shell=True, stdout=subprocess.PIPE, stderr=subprocess.STDOUT, text=True)
-m = re.search(r"KCHECK = \((\d+), (\d+)\)", p.stdout.replace("\n", " "))
+m = re.search(r"KCHECK = \((\d+)(?:%nat)?, (\d+)(?:%nat)?\)", p.stdout.replace("\n", " "))
 for ext in ("vo", "vok", "vos", "glob"):
     try:
         os.remove(os.path.join(wdir, "KCheck." + ext))
